@@ -37,7 +37,13 @@ var Backends = []string{"badger", "pathbadger"}
 
 // OpenDB opens a node database of the given backend.
 func OpenDB(backend, dir string, memoryOnly bool) (dbApi.NodeDB, error) {
-	cfg := &dbApi.Config{DB: dir, Namespace: Namespace, MaxCacheSize: 16 << 20, NoFsync: true, MemoryOnly: memoryOnly}
+	return OpenDBOpts(backend, dir, memoryOnly, false)
+}
+
+// OpenDBOpts opens a node database; discardWriteLogs is the configuration the consensus state storage runs with (no
+// write logs are stored, GetWriteLog is not available).
+func OpenDBOpts(backend, dir string, memoryOnly, discardWriteLogs bool) (dbApi.NodeDB, error) {
+	cfg := &dbApi.Config{DB: dir, Namespace: Namespace, MaxCacheSize: 16 << 20, NoFsync: true, MemoryOnly: memoryOnly, DiscardWriteLogs: discardWriteLogs}
 	switch backend {
 	case "badger":
 		return badger.New(cfg)
